@@ -340,6 +340,9 @@ class _Idioms(ast.NodeTransformer):
                 rest = []
             if not rest or meth == "astype":
                 return ast.Call(func=ast.Attribute(value=recv, attr=meth, ctx=ast.Load()), args=list(rest), keywords=kws)
+        if d == "getattr" and len(n.args) == 2 and not n.keywords and isinstance(n.args[1], ast.Constant) and isinstance(n.args[1].value, str) \
+                and n.args[1].value.isidentifier():
+            return ast.Attribute(value=n.args[0], attr=n.args[1].value, ctx=ast.Load())
         if d == "len" and len(n.args) == 1 and isinstance(n.args[0], ast.Call) and dotted_of(n.args[0].func) in ("list", "tuple") and len(n.args[0].args) == 1 \
                 and not n.args[0].keywords and not isinstance(n.args[0].args[0], (ast.GeneratorExp, ast.Starred)):
             return ast.Call(func=n.func, args=[n.args[0].args[0]], keywords=[])
